@@ -190,7 +190,7 @@ Qed.
 
 Lemma wf_impl_replace pat repl flags s : wf (impl_replace E pat repl flags s).
 Proof.
-  unfold impl_replace. destruct (_ && _ && _)%bool; [exact I|].
+  unfold impl_replace. destruct (_ && _ && _ && _)%bool; [exact I|].
   apply wf_pbind; [apply wf_get_cached_regex|]. intros [u| |]; exact I.
 Qed.
 
